@@ -1,10 +1,11 @@
 (** C06  Iteration visits every matching live entity exactly once with its own data.
     Storage level: what the slice accessors, entities(), Archetype::iter/iter_mut present, and that
-    one pass never repeats a handle.  (The query loops walk the same dense range; their model is
-    tied to the implementation by stream S5.) *)
+    one pass never repeats a handle; and, by induction over the loops of ecs_iter!/ecs_iter_borrow!
+    as modelled in World.iter_arch/iter_world (tied to the implementation by stream S5), the closed
+    form of a whole query for every world, plan, break point and panic point. *)
 From Coq Require Import NArith.
 From stdpp Require Import base list.
-From Gecs Require Import Prim Storage Query World Run StorageInv StorageOps RunFacts Examples.
+From Gecs Require Import Prim Storage Query World Run StorageInv StorageOps RunFacts WorldInv LoopFacts Examples.
 Local Open Scope nat_scope.
 
 (** Exactly len items; item i is the handle and the row of dense position i. *)
@@ -23,3 +24,46 @@ Proof. reflexivity. Qed.
 
 Example C06_nonvacuous : all_rows ex4 = Some [[515; 1; 30; 31]; [259; 1; 20; 21]]%N.
 Proof. vm_compute. reflexivity. Qed.
+
+(* ---------------------------------------------------------------- the query loops *)
+
+(** One closure call touches only the row it visits, and what it sees depends only on that row. *)
+Theorem C06_closure_call_is_local : forall acc s s' i ver delta o s1 ds, same_row i s s' ->
+  call_closure s i ver delta acc = Some (o, s1, ds) ->
+  forall o' s1' ds', call_closure s' i ver delta acc = Some (o', s1', ds') -> o' = o /\ ds' = ds /\ same_row i s1 s1'.
+Proof. exact call_closure_local. Qed.
+
+Theorem C06_closure_call_frame : forall acc s i ver delta o s1 ds, call_closure s i ver delta acc = Some (o, s1, ds) ->
+  ents s1 = ents s /\ aid s1 = aid s /\ forall col j, j <> i -> cell s1 col j = cell s col j.
+Proof. exact call_closure_frame. Qed.
+
+(** The whole query: the closure is called on a prefix of [world_records] (every live entity of every
+    matched archetype exactly once, archetype order then dense order, each call seeing what it would
+    see on the untouched world: the entity's own handle and own values), and the prefix ends exactly at
+    the first call that breaks or panics, in whichever archetype: Break ends the whole query. *)
+Theorem C06_query_visits_each_live_entity_once : forall delta break_at panic_at archs w, Forall2 SInv archs w ->
+  forall plan ord, wf_plan archs plan ->
+  exists w' recs ds k stp, iter_world w plan delta ord break_at panic_at = Some (w', recs, ds, stp) /\
+    recs = take k (world_records w plan delta) /\ Forall2 SInv archs w' /\
+    Forall2 (fun s s' => len s' = len s) w w' /\
+    stopped break_at panic_at ord k (matched_len w plan) stp.
+Proof. exact iter_world_spec. Qed.
+
+(** Without break or panic the number of calls is the sum of len() over the matched archetypes. *)
+Theorem C06_item_count_is_len : forall delta archs w plan ord, Forall2 SInv archs w -> wf_plan archs plan ->
+  exists w' ds, iter_world w plan delta ord None None = Some (w', world_records w plan delta, ds, SNone) /\
+    length (world_records w plan delta) = matched_len w plan.
+Proof. exact iter_world_complete. Qed.
+
+Check stopped : option nat -> option nat -> nat -> nat -> nat -> stop -> Prop.
+Check (eq_refl : stopped None None 0 3 3 SNone = (3 = 3 /\ forall m, m < 3 -> stop_of None None (0 + m) = SNone)).
+
+Definition c06_ad : darch := DA 3%N 0 [DC 0%N 0; DC 1%N 1].
+Example C06_hypotheses_hold : Forall2 SInv [c06_ad] [ex3] /\ wf_plan [c06_ad] [Some [AEnt; ACol 1 true false]].
+Proof. split; [constructor; [split_and!; [exact ex3_inv|reflexivity|reflexivity]|constructor]|]. repeat constructor. Qed.
+Example C06_concrete_query_with_break :
+  match iter_world [ex3] [Some [AEnt; ACol 1 true false]] 5%N 0 (Some 1) None with
+  | Some (w', recs, _, stp) => recs = [[4; 3; 3; 1; 11]; [4; 3; 259; 1; 21]]%N /\ stp = SBreak /\ (cols <$> w') = [[[10; 20; 30]; [16; 26; 31]]]%N
+  | None => False
+  end.
+Proof. vm_compute. repeat split; reflexivity. Qed.
